@@ -1479,6 +1479,15 @@ func (w *World) doReqMode(rt http.RoundTripper, step int, rq *Req, concurrent bo
 		}
 		req.URL = &u
 	}
+	if rq.StaleRawPath && req.URL.Opaque == "" && req.URL.Path != "" && req.URL.RawPath == "" {
+		// (only for paths that need no hint themselves: with a hint of its own, replacing it
+		// would change what goes on the wire)
+		u := *req.URL
+		u.RawPath = "/base%2Fof/the-parsed-url" // not an encoding of u.Path: ignored by EscapedPath, String, RequestURI
+		if u.EscapedPath() == req.URL.EscapedPath() {
+			req.URL = &u
+		}
+	}
 	if rq.NilReqHeader && len(rq.Header) == 0 {
 		req.Header = nil
 	}
